@@ -14,5 +14,8 @@ CONSTANTS
   Hook = FALSE
   Steer = FALSE
   Emit = FALSE
+  Clamp = "min1"
+  ErrSet = {}
+  AEIgnore = "nil"
 PROPERTIES CallReturns Quiesces
 CHECK_DEADLOCK FALSE
